@@ -211,12 +211,42 @@ def rule_once(chk):
         key, fld = [e.id for e in head.ast.target.elts] if isinstance(head.ast.target, ast.Tuple) else (None, None)
         region = common.loop_region(scfg, head)
         fcalls = [(n, c) for n in region for c, m in calls_in_node(n) if isinstance(c.func, ast.Attribute) and c.func.attr == "serialize"]
-        rng = scfg.count_range([s for s, l in head.succ if l == "body"][0], [head], lambda x: sum(1 for n, c in fcalls if n is x))
+        body0 = [s for s, l in head.succ if l == "body"][0]
+        rng = scfg.count_range(body0, [head], lambda x: sum(1 for n, c in fcalls if n is x))
+        # an application may be skipped only for a field whose serializer is known to be the identity function (then the value logged
+        # is the value given); the test must also pin the field's class, or a subclass overriding serialize() is bypassed
+        ident_edges = set()
+        if rng == (0, 1):
+            vm_ = ser.module
+            for t in region:
+                if t.kind != "test":
+                    continue
+                for lab in ("true", "false"):
+                    facts = X.atomic_facts(t.exprs[0], lab)
+                    is_ident = any(truth and isinstance(e_, ast.Compare) and len(e_.ops) == 1 and isinstance(e_.ops[0], ast.Is) and unparse(e_.left) == "%s._serializer" % fld
+                                   and isinstance(e_.comparators[0], ast.Name) and e_.comparators[0].id in vm_.funcs and _is_identity(vm_.funcs[e_.comparators[0].id]) for e_, truth in facts)
+                    pins = any(truth and isinstance(e_, ast.Compare) and len(e_.ops) == 1 and isinstance(e_.ops[0], ast.Is) and unparse(e_.left) in ("%s.__class__" % fld, "type(%s)" % fld)
+                               and unparse(e_.comparators[0]) == "Field" for e_, truth in facts)
+                    if is_ident and pins:
+                        ident_edges.add((t, lab))
+            rng_rest = scfg.count_range(body0, [head], lambda x: sum(1 for n, c in fcalls if n is x), avoid_edges=ident_edges) if ident_edges else rng
+            if ident_edges and rng_rest == (1, 1):
+                rng = (1, 1)
         okf = rng == (1, 1)
         for n, c in fcalls:
             st = n.ast
+            arg_ = X.inline(ser, c.args[0]) if len(c.args) == 1 else None
             okf = okf and isinstance(st, ast.Assign) and isinstance(st.targets[0], ast.Subscript) and unparse(st.targets[0]) == "%s[%s]" % (mparam, key) \
-                and isinstance(c.func.value, ast.Name) and c.func.value.id == fld and len(c.args) == 1 and unparse(c.args[0]) == "%s[%s]" % (mparam, key)
+                and isinstance(c.func.value, ast.Name) and c.func.value.id == fld and arg_ is not None and unparse(arg_) == "%s[%s]" % (mparam, key)
+        # every declared key is READ from the message on every iteration: for a missing one that read is what raises (KeyError), and the
+        # containment path in Logger.write then reports it instead of delivering an incomplete message
+        reads = [n for n in region if any(isinstance(x_, ast.Subscript) and isinstance(x_.ctx, ast.Load) and unparse(x_) == "%s[%s]" % (mparam, key)
+                                           for e_ in (list(n.exprs) if n.kind in ("test", "for_next", "with_enter") else ([n.ast] if isinstance(n.ast, ast.AST) else [])) for x_ in ast.walk(e_))]
+        okr, witr = scfg.must_pass([body0], [head], reads, skip_labels=("exc",))
+        chk.req(bool(reads) and okr, "C13.once", "_MessageSerializer.serialize:every-declared-field-is-read", chk.where(ser),
+                good="message[key] is read for every declared field (a missing field raises KeyError inside the contained region)",
+                fail="an iteration can finish without reading %s[%s]: a message that lacks a declared field is then delivered incomplete, with no traceback and no serialization-failure report"
+                     % (mparam, key))
         ok_total, _n, _s = common.loop_is_total(scfg, head, common.quiet_exc_edges(ctx, ser))
         detail = "range %s" % (rng,)
     chk.req(okf, "C13.once", "_MessageSerializer.serialize:each-declared-field-once", chk.where(ser),
@@ -625,13 +655,21 @@ def rule_message_copies(chk):
             par = parents.get(id(u))
             gp = parents.get(id(par)) if par is not None else None
             okuse = (isinstance(par, ast.Attribute) and par.attr == "copy" and isinstance(gp, ast.Call)) or \
-                    (isinstance(par, ast.Call) and isinstance(par.func, ast.Name) and par.func.id in ("dict",) and u in par.args)
+                    (isinstance(par, ast.Call) and isinstance(par.func, ast.Name) and par.func.id in ("dict",) and u in par.args) or \
+                    (isinstance(par, ast.Call) and unparse(par.func).split(".")[-1] == "ChainMap" and par.args and u is not par.args[0] and common._fresh_container(par))
+            # (a ChainMap over the contents reads them and stores into its own first mapping, as long as that one is fresh and the contents come later)
             if not okuse:
                 bad.append(unparse(par) if par is not None else "?")
         chk.req(uses and not bad, "C13.copy", "%s:works-on-a-copy-of-the-contents" % q, chk.where(f), good="every use of self._contents is a copy",
                 fail="%s hands out / mutates the message's own contents dictionary (%s)" % (q, bad))
     common.rule_instance_state(chk, "C13", [("_validation", "_MessageSerializer"), ("_message", "Message")])
     common.rule_defaults(chk, "C13", modules=("_validation", "_message", "_output"))
+
+
+def _is_identity(g):
+    """def f(x): return x"""
+    body = [st for st in g.node.body if not (isinstance(st, ast.Expr) and isinstance(st.value, ast.Constant))]
+    return len(g.pos_params) == 1 and len(body) == 1 and isinstance(body[0], ast.Return) and isinstance(body[0].value, ast.Name) and body[0].value.id == g.pos_params[0]
 
 
 def rule_write_fresh(chk):
@@ -657,7 +695,10 @@ def rule_write_fresh(chk):
         vals = assigned_values(mw, nm)
         for v in vals:
             if v is None or not common._fresh_container(v):
-                bad.append("%s = %s" % (nm, unparse(v) if v is not None else "<unpacked>"))
+                why_ = ""
+                if isinstance(v, ast.Call) and unparse(v.func).split(".")[-1] == "ChainMap":
+                    why_ = " -- stores into a ChainMap land in its first mapping, here the message's own contents"
+                bad.append("%s = %s%s" % (nm, unparse(v) if v is not None else "<unpacked>", why_))
     chk.req(not bad, "C13.copy", "Message.write:fields-built-afresh-per-write", chk.where(mw),
             good="the splatted dictionary is a fresh copy made in this call", fail="the dictionary written is not made afresh in this call (%s): keys stored for one write (logger, serializer) leak into later writes" % "; ".join(bad))
 
